@@ -26,6 +26,7 @@ KIND_NAMES = {
     1801: 'C18/blocklist: blocklist.Reload+Blocked vs Stree.reload/contains',
     1802: 'C18/stree: stree.Contains vs Stree.build/contains',
     1803: 'C18/addrlist: addrlist Push/Pop/Reset vs AddrList.v',
+    1105: 'C03/writer_queue: peerwriter with a blocked connection: pieces, choke, cancelled requests, other messages, queue bound 1..4 with and without the fast extension, then the connection is released: bytes written and upload counter vs Wire.run_wqueue',
     1101: 'C11/writer: peerwriter bytes vs Wire.enc_go (+ upload counter)',
     1102: 'C11/reader: peerreader messages vs Wire.parse',
     1103: 'C11/reader_slow: peerreader across piece timeouts vs Wire.parse',
@@ -122,7 +123,7 @@ PROPS = {
         'assumptions': ['the torrent loop calls the picker under the glue discipline modelled by Picker.pstep'],
     },
     'C03': {
-        'kinds': {301: {'quick': 3000, 'thorough': 60000}, 302: {'quick': 3000, 'thorough': 60000}, 303: {'quick': 1500, 'thorough': 30000}},
+        'kinds': {301: {'quick': 3000, 'thorough': 60000}, 302: {'quick': 3000, 'thorough': 60000}, 303: {'quick': 1500, 'thorough': 30000}, 1105: {'quick': 3000, 'thorough': 60000}},
         'trusted': ['container/heap keeps the least recently used item at index 0; time.AfterFunc TTL expiry is not exercised (TTL one hour)'],
         'assumptions': ['0 < ReadCacheBlockSize < 2^31; piece length < 2^32'],
     },
